@@ -142,5 +142,6 @@ def tasks(tier):
             inst = "C16/signal-derivative-chain[d=%d,N=%d,%s]" % (d, N, kname)
             out.append(Task(inst, c17.guarded(lambda d=d, N=N, kname=kname: c17.signal_derivative_chain(d, N, kname), inst), kind="bounded", bound=dict(order=d, N=N, knots=kname, T="symbolic"),
                             replay=dict(harness="task_probe", module="contracts.c16", task=inst, tier=tier)))
+    out += c17.sequence_tasks(tier, "C16")
     out.append(Task("C16/signal", signal_der, kind="bounded", bound=dict(signal_order=2), replay=dict(harness="task_probe", module="contracts.c16", task="C16/signal", tier=tier)))
     return out
